@@ -25,6 +25,7 @@ EXPLANATION = (
     "but a Hermiticity test; (D4) fewer than one control is rejected at construction; (D5) no hidden state in the "
     "gate classes (module-level caches, mutable defaults). "
     "(D1x) every exit of a modifier method has the modifier's normal form (no value-dependent re-association such as inverse -> dagger); (D3f) the is_hermitian flag of every MatrixFactoryGate construction is absent, literal, forwarded or a sound Hermiticity test, with class attributes followed to their defining expression."
+    ' Round 4: the peeling loop of a replace_params helper may live in a callee returning (base, modifiers).'
 )
 RULE_TEXT = "instances = (gate class, modifier method) pairs, delegating properties, matrix properties, constructions of MatrixFactoryGate; distinct by (rule, construct)"
 ASSUMPTIONS = [
